@@ -72,6 +72,7 @@ type XRec struct {
 	Unbounded     bool // reader consumed beyond the guard
 	Served        any  // content descriptor written by Serve (e.g. *OCSPServed)
 	CallerID      int
+	Hops          int  // redirect loop: hops followed beyond the first
 	ReqInfo       any  // decoded request info (kept across a redirect hop)
 	CancelledHere bool // the context was cancelled when this body was closed
 }
@@ -238,6 +239,10 @@ func sleepCtx(ctx context.Context, d time.Duration) error {
 
 const maxStall = time.Hour
 
+// redirectLoopCap is where the simulated endless redirector gives up (a real
+// one would not): a client that is still following by then has no bound.
+const redirectLoopCap = 2000
+
 func (n *Net) RoundTrip(req *http.Request) (*http.Response, error) {
 	ctx := req.Context()
 	u := req.URL.String()
@@ -252,6 +257,20 @@ func (n *Net) RoundTrip(req *http.Request) (*http.Response, error) {
 		x := n.redirects[id]
 		if x != nil {
 			x.Rec.Redirected = true
+			if x.Fault.Kind == FRedirect && x.Fault.Param >= 1000 && x.Rec.Hops < redirectLoopCap {
+				// a server that keeps redirecting (to itself, over plain HTTP):
+				// every hop costs a millisecond
+				x.Rec.Hops++
+				if err := sleepCtx(ctx, time.Millisecond); err != nil {
+					x.Rec.Returned, x.Rec.TReturn, x.Rec.Outcome = true, time.Now(), "ctx_done"
+					return nil, err
+				}
+				x.Rec.TReturn = time.Now()
+				h := http.Header{}
+				h.Set("Location", "http://redirect.sim/r?k="+url.QueryEscape(id))
+				code := x.Fault.Param % 1000
+				return &http.Response{StatusCode: code, Status: fmt.Sprintf("%d %s", code, http.StatusText(code)), Header: h, Body: http.NoBody, Request: req, ProtoMajor: 1, ProtoMinor: 1}, nil
+			}
 			return n.respond(x, req, reqBody, Fault{})
 		}
 	}
@@ -291,7 +310,7 @@ func (n *Net) RoundTrip(req *http.Request) (*http.Response, error) {
 		x.Rec.Returned, x.Rec.TReturn, x.Rec.Outcome = true, time.Now(), "panic"
 		panic(n.PanicValue)
 	case FRedirect:
-		code := x.Fault.Param // 301/302/303 turn a POST into a GET, 307/308 repeat it with its body
+		code := x.Fault.Param % 1000 // 301/302/303 turn a POST into a GET, 307/308 repeat it with its body; +1000: the target redirects again, for ever
 		if code == 0 {
 			code = 302
 		}
@@ -321,6 +340,15 @@ func (n *Net) respond(x *Exchange, req *http.Request, reqBody []byte, f Fault) (
 	hdr := http.Header{}
 	if ct != "" {
 		hdr.Set("Content-Type", ct)
+	}
+	if (len(x.Key)+x.CertPos+x.SrcIdx)%2 == 0 {
+		// caching hints many servers and CDNs attach (unsigned, and so of no
+		// consequence for what the body proves)
+		hdr.Set("Date", now.UTC().Format(http.TimeFormat))
+		hdr.Set("Expires", now.Add(6*time.Hour).UTC().Format(http.TimeFormat))
+		hdr.Set("Cache-Control", "max-age=21600, public, no-transform, must-revalidate")
+		hdr.Set("Last-Modified", now.Add(-time.Hour).UTC().Format(http.TimeFormat))
+		hdr.Set("ETag", "\"sim\"")
 	}
 	b := &simBody{x: x, ctx: req.Context(), data: body, cap: x.ReadCap, net: n}
 	switch f.Kind {
